@@ -242,8 +242,11 @@ impl TryFromTerm for f64 {
 
     fn try_from_term<T: Term>(term: T) -> Result<Self, Self::Error> {
         if let Some(lex) = term.lexical_form() {
-            if Term::eq(&term.datatype().unwrap(), xsd::double)
-                || Term::eq(&term.datatype().unwrap(), xsd::float)
+            if Term::eq(&term.datatype().unwrap(), xsd::float) {
+                // the value space of xsd:float is single precision:
+                // round to the nearest f32 first (exact when widened to f64)
+                lex.parse::<f32>().map(f64::from)
+            } else if Term::eq(&term.datatype().unwrap(), xsd::double)
                 || Term::eq(&term.datatype().unwrap(), xsd::decimal)
             {
                 lex.parse()
